@@ -71,8 +71,12 @@ def run(res, tier, seed):
         else:
             b = gen.random_input(rnd)
         pre = b""
-        if rnd.random() < 0.25:
-            pre = ("// #EnableDice " + rnd.choice(["wod", "coc", "fate", "doublecross"]) + " true\n" + rnd.choice(["b2", "3a8", "f", "2c8", "1"])).encode()
+        if rnd.random() < 0.3:
+            # histories with a macro: evaluated fine, failing at run time, or failing to parse
+            pre = ("// #EnableDice " + rnd.choice(["wod", "coc", "fate", "doublecross"]) + " true\n" +
+                   rnd.choice(["b2", "3a8", "f", "2c8", "1", "b2 + 1/0", "f + nosuch()", "3a8 + [1][5]", "2c8 + 'a' - 1", "b2 +", "1 ? "])).encode()
+        if k >= 4 and rnd.random() < 0.15:
+            b = gen.st_input(rnd).encode()
         inputs.append((b, fl))
         pres.append(pre)
     rows = pegcases.go_parse(inputs, pres)
@@ -154,9 +158,16 @@ def run(res, tier, seed):
             for t in ["b2", "p", "b", "3a5", "2a8k6", "a5", "2c3", "2c8m10", "f", "f+1", "1+f", "if 1 {2}", "while 0 {}", "func g() {1}", "`{% if 1 {2} %}`",
                       "x = b2", "[b2, 3a5]", "{'k': f}", "(b)", "b ", " b", "1;b", "&x = b2; x", "^st力量b2", "3a5+2c3", "return 1"]:
                 extra.append((t.encode(), list(fl)))
+        # st lists: the value rule pushes / pops the flags around each value
+        for fl in ([False, False, False, False, True, True, True], [True, True, True, True, False, True, False]):
+            for first in ("a=1", "力量60", "&a=1d6", "x:2"):
+                for sep in (" ", ",", ""):
+                    for second in ("b=(`{% if 1 { 2 } %}`)", "b=(`{% func g() { 1 } %}`)", "b=(`{% x = 0; while x < 1 { x = x + 1 } %}`)",
+                                   "敏捷`{% if 1 { 2 } %}`", "b=(2d)", "b:(1|2)"):
+                        extra.append((("^st" + first + sep + second).encode(), list(fl)))
         xr = pegcases.go_parse(extra)
         for (b, fl), r in zip(extra, xr):
-            if not r["ok"]:
+            if not r["ok"] or found >= 4:
                 continue
             got = set(r["ops"] or [])
             for f, (name, xs) in FAMILIES.items():
